@@ -352,15 +352,41 @@ func (p *path) addRule(
 		invalid(tok)
 	}
 
-	y, ok := cursor.methods[verb]
-	if !ok && cursor.methodAll != nil {
-		y, ok = cursor.methodAll, true
+	additional := func() error {
+		for _, addRule := range rule.AdditionalBindings {
+			if len(addRule.AdditionalBindings) != 0 {
+				return fmt.Errorf("nested rules") // TODO: errors...
+			}
+
+			if err := p.addRule(addRule, desc, name); err != nil {
+				return err
+			}
+		}
+		return nil
 	}
-	if ok {
-		if y.desc.FullName() != desc.FullName() {
+
+	// All bindings of a node belong to one method, whatever the order they
+	// are added in.
+	conflict := func(y *method) bool {
+		return y != nil && y.desc.FullName() != desc.FullName()
+	}
+	if conflict(cursor.methodAll) {
+		return fmt.Errorf("duplicate rule %v", rule)
+	}
+	if verb == "*" {
+		for _, y := range cursor.methods {
+			if conflict(y) {
+				return fmt.Errorf("duplicate rule %v", rule)
+			}
+		}
+		if cursor.methodAll != nil {
+			return additional() // Method already registered.
+		}
+	} else if y, ok := cursor.methods[verb]; ok {
+		if conflict(y) {
 			return fmt.Errorf("duplicate rule %v", rule)
 		}
-		return nil // Method already registered.
+		return additional() // Method already registered.
 	}
 
 	m := &method{
@@ -397,17 +423,7 @@ func (p *path) addRule(
 		cursor.methods[verb] = m
 	}
 
-	for _, addRule := range rule.AdditionalBindings {
-		if len(addRule.AdditionalBindings) != 0 {
-			return fmt.Errorf("nested rules") // TODO: errors...
-		}
-
-		if err := p.addRule(addRule, desc, name); err != nil {
-			return err
-		}
-	}
-
-	return nil
+	return additional()
 }
 
 func quote(raw []byte) []byte {
